@@ -50,7 +50,7 @@ func PlanTagsV2(script *traceql_parser.TraceQLScript) (shared.GenericTraceReques
 
 func PlanValuesV2(script *traceql_parser.TraceQLScript, key string) (shared.GenericTraceRequestProcessor[string], error) {
 	if script == nil {
-		return &allTagsV2RequestProcessor{}, nil
+		return &allValuesV2RequestProcessor{key: key}, nil
 	}
 	res, err := clickhouse_transpiler.PlanValuesV2(script, key)
 	if err != nil {
